@@ -1523,7 +1523,9 @@ def run(ctx):
         "tolerance": "none: values are compared bit for bit (float64 tobytes, shape, entry names); ids, outcomes and file sets exactly",
         "partial": ["install_* front ends are exercised from the parsed data on (stub parsers); the parsers are property C08",
                     "TypeError paths (non-Element arguments) and non-int metastables/charges are not modelled",
-                    "os.path.join flattening of the component lists is not modelled (components are checked slash-free)"],
+                    "os.path.join flattening of the component lists is not modelled (components are checked slash-free)",
+                    "numpy-integer metastables of beam CX are kept out of the histories: they hit the known finding "
+                    "'truncated-by-rejected-write' (probed separately on every run)"],
     })
     ctx.coverage["samples"] = [{"calls": cases[0][1]["calls"][:2], "impl_trace": cases[0][3][:2]},
                                {"calls": cases[-1][1]["calls"][:1], "queries": [list(map(str, q)) for q in cases[-1][2][:5]]}]
@@ -1532,22 +1534,24 @@ def run(ctx):
 
 def minimise(w, f):
     """drop calls of the failing history while the same claim still fails"""
-    if "history" not in f:
+    if "history" not in f or f.get("call", {}).get("style") == "populate":
         return f
     calls = f["history"]["calls"]
+    budget = [60]
     h = {"universe": f["history"]["universe"], "calls": calls}
     claim = f["claim"]
 
     def still(cs):
         hh = {"universe": h["universe"], "calls": copy.deepcopy(cs)}
-        qs = queries_for(hh, random.Random(0), 400)
+        budget[0] -= 1
+        qs = queries_for(hh, random.Random(0), 150)
         if f.get("query") is not None and tuple(f["query"]) not in [tuple(q) for q in qs]:
             qs.append(tuple(f["query"]))
         _, _, fl = run_history(w, hh, qs)
         return [x for x in fl if x["claim"] == claim]
     cur = list(calls)
     i = 0
-    while i < len(cur) - 1 and len(cur) > 1:
+    while i < len(cur) - 1 and len(cur) > 1 and budget[0] > 0:
         trial = cur[:i] + cur[i + 1:]
         if still(trial):
             cur = trial
